@@ -38,8 +38,7 @@ def convert_rules(ctx):
     fi = repo.func(CONV, "KeyConverter._get_public_key_data")
     fq = ctx.fq(fi)
     outs = [o for o in ev.outcomes(fi) if o.kind == "return"]
-    if len(outs) != 1:
-        raise AnalysisError(f"{fq}: expected one outcome")
+    outs = generic.sole_outcome(ctx, outs, f"{fq}: expected one outcome")
     alts = cases(outs[0].value)
     xy = [(g, t) for g, t in alts if len([p for p in cat_parts(t) if isinstance(p, App) and p.op == "meth:to_bytes"]) == 2]
     raw = [(g, t) for g, t in alts if isinstance(t, App) and t.op == "meth:public_bytes"]
